@@ -300,7 +300,9 @@ def check(prop, tier, args):
         t_explore = time.monotonic()
         deadline = t_explore + budget
         max_runs = int(os.environ.get('VERIF_MAX_RUNS') or args.max_runs or cfg.get('max_runs', 10 ** 9))
-        stop = lambda: time.monotonic() > deadline or agg.runs >= max_runs or len(agg.violations) >= 24  # noqa: E731
+        grace_s = min(45.0, budget)
+        stop = lambda: (time.monotonic() > deadline or agg.runs >= max_runs or len(agg.violations) >= 24  # noqa: E731
+                        or (agg.harness_failures and (agg.violations or time.monotonic() > agg.harness_failures[0][0] + grace_s)))
         by_fl = {fl: [] for fl in flavours}
 
         def gen_for(fl):
@@ -320,6 +322,11 @@ def check(prop, tier, args):
                 out['flavour'] = fl
                 agg.add(out)
         explore_s = time.monotonic() - t_explore
+        if agg.harness_failures:
+            if not agg.violations:
+                raise agg.harness_failures[0][1]
+            print('note: %d run(s) also ended in an exception inside harness code on this tree; with violations present they are '
+                  'treated as their consequence. First one: %s' % (len(agg.harness_failures), str(agg.harness_failures[0][1])[-600:]))
         # ---- violations -> minimise, replay files, known findings
         known = load_known()
         reported = []
@@ -421,12 +428,22 @@ class Aggregate:
         self.samples = []
         self.by_flavour = Counter()
         self.extra = Counter()
+        self.harness_failures = []  # (monotonic time, HarnessFailure): decided at the end of the exploration, see check()
 
     def add(self, out):
         self.runs += 1
         self.by_flavour[out.get('flavour', '?')] += 1
         res = out.get('result')
-        vs = violations_of(self.eng, out)
+        try:
+            vs = violations_of(self.eng, out)
+        except HarnessFailure as e:
+            # An exception in harness code inside a run.  On a tree that violates a memory-safety or atomicity property this
+            # can be a CONSEQUENCE of the violation (a freed-and-reused list turning up inside the harness's own data), so the
+            # exploration goes on for a short grace period: if a violation shows, that is what is reported; if none does, the
+            # harness failure stands (exit 2).
+            if len(self.harness_failures) < 5:
+                self.harness_failures.append((time.monotonic(), e))
+            return
         if res:
             self.steps += res.get('steps', 0)
             self.keys.update(res.get('keys') or ())
